@@ -410,6 +410,37 @@ func c07InsideForEach(gi, l, class int) (key, detail string) {
 	return "", ""
 }
 
+// c07FieldTID: the XOR getters take the transaction id from the Message (the field the caller sees and may assign).
+// Two messages with the same value bytes: one decoded from bytes that carry id B; the other decoded from bytes that
+// carry id A whose TransactionID field the caller then set to B. Same value, same id => same outcome.
+func c07FieldTID(gi, l, class int) (key, detail string) {
+	g := c07Getters[gi]
+	if g.Attr != 0x0020 && g.Attr != 0x0012 {
+		return "", ""
+	}
+	val := c07Value(g, l, class, nil)
+	idB := [12]byte{0xB0, 0xB1, 0xB2, 0xB3, 0xB4, 0xB5, 0xB6, 0xB7, 0xB8, 0xB9, 0xBA, 0xBB}
+	parts := []c07Part{{Type: g.Attr, Value: val}}
+	zero := func(int) byte { return 0 }
+	var o1, o2 string
+	if p := catch(func() {
+		m1 := &stun.Message{Raw: c07Build(parts, c07TID, 4, zero)}
+		m2 := &stun.Message{Raw: c07Build(parts, idB, 4, zero)}
+		if m1.Decode() != nil || m2.Decode() != nil {
+			o1, o2 = "undecodable", "undecodable"
+			return
+		}
+		m1.TransactionID = idB
+		o1, o2 = g.Call(m1), g.Call(m2)
+	}); p != "" {
+		return "panic/" + g.Name, p
+	}
+	if o1 != o2 {
+		return "non-local/" + g.Name, fmt.Sprintf("%s on a %d-byte value gives %q on a message whose TransactionID field the caller set to %x (its bytes carry %x) and %q on a message decoded with that id", g.Name, l, clipS(o1), idB, c07TID, clipS(o2))
+	}
+	return "", ""
+}
+
 type c07Case struct {
 	Getter  int   `json:"getter"`
 	Len     int   `json:"len"`
@@ -635,6 +666,9 @@ func init() {
 						if key, detail := c07InsideForEach(gi, l, class); key != "" {
 							c.Violation(key, detail, c07Case{Getter: gi, Len: l, Class: class, Pos: -8, Pos2: -1, Seed: c.Seed})
 						}
+						if key, detail := c07FieldTID(gi, l, class); key != "" {
+							c.Violation(key, detail, c07Case{Getter: gi, Len: l, Class: class, Pos: -9, Pos2: -1, Seed: c.Seed})
+						}
 						first := ""
 						var f0 [3]int
 						have := false
@@ -751,6 +785,12 @@ func init() {
 			g := c07Getters[k.Getter]
 			if k.Pos == -8 {
 				if key, detail := c07InsideForEach(k.Getter, k.Len, k.Class); key != "" {
+					c.Violation(key, detail, k)
+				}
+				return
+			}
+			if k.Pos == -9 {
+				if key, detail := c07FieldTID(k.Getter, k.Len, k.Class); key != "" {
 					c.Violation(key, detail, k)
 				}
 				return
